@@ -15,8 +15,8 @@ from hidc.codegen import CodeGen                  # noqa: E402
 from hidc.errors import CompilerError             # noqa: E402
 import hidc as _hidc                              # noqa: E402
 
-assert os.path.realpath(_hidc.__file__).startswith(os.path.realpath(ROOT)), \
-    'hidc imported from %s, expected under %s' % (_hidc.__file__, ROOT)
+_where = os.path.realpath(list(_hidc.__path__)[0])
+assert _where.startswith(os.path.realpath(ROOT)), 'hidc imported from %s, expected under %s' % (_where, ROOT)
 
 
 class Compiled:
